@@ -728,7 +728,7 @@ func signKey(mode string) (int, bool) {
 		return 0, false
 	}
 	k, err := strconv.Atoi(mode[1:])
-	return k, err == nil && k >= 0 && k <= zeroSecret
+	return k, err == nil && k >= 0 && k <= 19
 }
 
 func buildForged(f *forgeSpec) string {
